@@ -150,27 +150,60 @@ fn vals(h: i64, o: i64) -> HashMap<String, Value> {
 }
 fn setup(cfg: u8, rows0: u8) -> RelationalEngine {
     let e = RelationalEngine::new();
-    e.create_table(T, Schema::new(vec![Column::new("h", ColumnType::Int), Column::new("o", ColumnType::Int)])).expect("create_table");
+    setup_in(&e, T, cfg, rows0);
+    e
+}
+fn setup_in(e: &RelationalEngine, t: &str, cfg: u8, rows0: u8) {
+    e.create_table(t, Schema::new(vec![Column::new("h", ColumnType::Int), Column::new("o", ColumnType::Int)])).expect("create_table");
     if cfg == 0 {
-        e.create_index(T, "h").expect("create_index h");
-        e.create_btree_index(T, "o").expect("create_btree_index o");
+        e.create_index(t, "h").expect("create_index h");
+        e.create_btree_index(t, "o").expect("create_btree_index o");
     } else {
         for c in ["h", "o", "_id"] {
-            e.create_index(T, c).expect("create_index");
-            e.create_btree_index(T, c).expect("create_btree_index");
+            e.create_index(t, c).expect("create_index");
+            e.create_btree_index(t, c).expect("create_btree_index");
         }
     }
     for r in &INIT[..rows0 as usize] {
-        e.insert(T, vals(r.0, r.1)).expect("initial insert");
+        e.insert(t, vals(r.0, r.1)).expect("initial insert");
     }
-    e
+}
+fn teardown(e: &RelationalEngine, t: &str) {
+    for c in ["h", "o", "_id"] {
+        if e.has_btree_index(t, c) {
+            let _ = e.drop_btree_index(t, c);
+        }
+        if e.has_index(t, c) {
+            let _ = e.drop_index(t, c);
+        }
+    }
+    let _ = e.drop_table(t);
+}
+/// One engine per worker process, one fresh table per case; the engine is replaced whenever a case
+/// did not end with every transaction finished and every lock gone (so no state leaks between cases).
+struct Pool {
+    e: Option<RelationalEngine>,
+    used: usize,
+}
+impl Pool {
+    fn take(&mut self) -> (RelationalEngine, String) {
+        if self.used >= 2048 {
+            self.e = None;
+        }
+        let e = self.e.take().unwrap_or_else(|| {
+            self.used = 0;
+            RelationalEngine::new()
+        });
+        self.used += 1;
+        (e, format!("t{}", self.used))
+    }
 }
 fn init_table(rows0: u8) -> Table {
     INIT[..rows0 as usize].iter().enumerate().map(|(i, r)| (i as u64 + 1, *r)).collect()
 }
 /// authoritative rows read straight from the slab (not through any query path)
-fn raw(e: &RelationalEngine) -> Result<Table, String> {
-    let rows = e.store().router().relations.scan_all(T).map_err(|x| x.to_string())?;
+fn raw(e: &RelationalEngine, t: &str) -> Result<Table, String> {
+    let rows = e.store().router().relations.scan_all(t).map_err(|x| x.to_string())?;
     let mut out = Table::new();
     for (rid, r) in rows {
         match (r.first(), r.get(1)) {
@@ -195,14 +228,14 @@ fn classify<Tv: Into<u64>>(r: Result<Tv, RelationalError>) -> Got {
         Err(e) => Got::Err(e.to_string()),
     }
 }
-fn exec_stmt(e: &RelationalEngine, tx: Option<u64>, s: &Stmt) -> Got {
+fn exec_stmt(e: &RelationalEngine, t: &str, tx: Option<u64>, s: &Stmt) -> Got {
     match (tx, s) {
-        (Some(t), Stmt::Ins(h, o)) => classify(e.tx_insert(t, T, vals(*h, *o))),
-        (Some(t), Stmt::Upd(c, s)) => classify(e.tx_update(t, T, c.cond(), s.map()).map(|n| n as u64)),
-        (Some(t), Stmt::Del(c)) => classify(e.tx_delete(t, T, c.cond()).map(|n| n as u64)),
-        (None, Stmt::Ins(h, o)) => classify(e.insert(T, vals(*h, *o))),
-        (None, Stmt::Upd(c, s)) => classify(e.update(T, c.cond(), s.map()).map(|n| n as u64)),
-        (None, Stmt::Del(c)) => classify(e.delete_rows(T, c.cond()).map(|n| n as u64)),
+        (Some(x), Stmt::Ins(h, o)) => classify(e.tx_insert(x, t, vals(*h, *o))),
+        (Some(x), Stmt::Upd(c, s)) => classify(e.tx_update(x, t, c.cond(), s.map()).map(|n| n as u64)),
+        (Some(x), Stmt::Del(c)) => classify(e.tx_delete(x, t, c.cond()).map(|n| n as u64)),
+        (None, Stmt::Ins(h, o)) => classify(e.insert(t, vals(*h, *o))),
+        (None, Stmt::Upd(c, s)) => classify(e.update(t, c.cond(), s.map()).map(|n| n as u64)),
+        (None, Stmt::Del(c)) => classify(e.delete_rows(t, c.cond()).map(|n| n as u64)),
     }
 }
 
@@ -339,26 +372,26 @@ struct BatteryFail {
     msg: String,
 }
 /// every query through every read strategy must return exactly the reference rows
-fn battery(e: &RelationalEngine, m: &Table, max_id: u64, cfg: u8, level: u8, evals: &mut u64) -> Option<BatteryFail> {
+fn battery(e: &RelationalEngine, t: &str, m: &Table, max_id: u64, cfg: u8, level: u8, evals: &mut u64) -> Option<BatteryFail> {
     let probe = e.begin_transaction();
     let mut fail = None;
     'outer: for q in battery_queries(max_id) {
         let exp: Vec<u64> = m.iter().filter(|(id, r)| q.eval(**id, r)).map(|(id, _)| *id).collect();
         let c = q.cond();
         let mut runs: Vec<(&'static str, Result<Vec<u64>, String>, Option<Vec<Row>>)> = vec![];
-        let r = e.select(T, c.clone());
+        let r = e.select(t, c.clone());
         runs.push(("select", r.as_ref().map(|x| x.iter().map(|r| r.id).collect()).map_err(|x| x.to_string()), r.ok()));
-        runs.push(("count", e.count(T, c.clone()).map(|n| (0..n).collect()).map_err(|x| x.to_string()), None));
-        let r = e.select_columnar(T, c.clone(), ColumnarScanOptions { projection: None, prefer_columnar: true });
+        runs.push(("count", e.count(t, c.clone()).map(|n| (0..n).collect()).map_err(|x| x.to_string()), None));
+        let r = e.select_columnar(t, c.clone(), ColumnarScanOptions { projection: None, prefer_columnar: true });
         runs.push(("select_columnar", r.as_ref().map(|x| x.iter().map(|r| r.id).collect()).map_err(|x| x.to_string()), r.ok()));
-        let r = e.tx_select(probe, T, c.clone());
+        let r = e.tx_select(probe, t, c.clone());
         runs.push(("tx_select", r.as_ref().map(|x| x.iter().map(|r| r.id).collect()).map_err(|x| x.to_string()), r.ok()));
         if level >= 1 {
-            let r = e.select_streaming(T, c.clone()).map(|x| x.map(|r| r.id).map_err(|e| e.to_string())).collect::<Result<Vec<u64>, String>>();
+            let r = e.select_streaming(t, c.clone()).map(|x| x.map(|r| r.id).map_err(|e| e.to_string())).collect::<Result<Vec<u64>, String>>();
             runs.push(("select_streaming", r, None));
-            let r = e.select_iter(T, c.clone(), CursorOptions::default()).map_err(|x| x.to_string()).and_then(|cur| cur.map(|x| x.map(|r| r.id).map_err(|e| e.to_string())).collect::<Result<Vec<u64>, String>>());
+            let r = e.select_iter(t, c.clone(), CursorOptions::default()).map_err(|x| x.to_string()).and_then(|cur| cur.map(|x| x.map(|r| r.id).map_err(|e| e.to_string())).collect::<Result<Vec<u64>, String>>());
             runs.push(("select_iter", r, None));
-            let r = e.select_with_limit(T, c.clone(), 1000, 0);
+            let r = e.select_with_limit(t, c.clone(), 1000, 0);
             runs.push(("select_with_limit(1000,0)", r.as_ref().map(|x| x.iter().map(|r| r.id).collect()).map_err(|x| x.to_string()), r.ok()));
         }
         for (name, ids, rows) in runs {
@@ -526,6 +559,8 @@ struct CaseOut {
     conflicts: u64,
     final_state: String,
     info: Info,
+    /// reached the end with every transaction finished and no lock left
+    clean: bool,
 }
 
 fn diff(got: &Table, exp: &Table) -> String {
@@ -538,9 +573,18 @@ fn diff(got: &Table, exp: &Table) -> String {
     v.join("; ")
 }
 
-fn run_case(case: &Case, level: u8, selftest: bool) -> CaseOut {
+fn run_case(pool: &mut Pool, case: &Case, level: u8, selftest: bool) -> CaseOut {
+    let (e, t) = pool.take();
+    setup_in(&e, &t, case.cfg, case.rows0);
+    let out = run_case_in(&e, &t, case, level, selftest);
+    if out.clean {
+        teardown(&e, &t);
+        pool.e = Some(e);
+    }
+    out
+}
+fn run_case_in(e: &RelationalEngine, tn: &str, case: &Case, level: u8, selftest: bool) -> CaseOut {
     let mut out = CaseOut::default();
-    let e = setup(case.cfg, case.rows0);
     let mut m = Model::new(case.rows0, case.ntx);
     let mut advanced: i64 = 0;
     let hist = |i: usize| case.events[..=i].iter().map(show_ev).collect::<Vec<_>>().join("; ");
@@ -587,7 +631,7 @@ fn run_case(case: &Case, level: u8, selftest: bool) -> CaseOut {
                 };
                 let blockers = m.blockers(me, &ids);
                 let hard: Vec<_> = blockers.iter().filter(|b| !b.3).collect();
-                let got = exec_stmt(&e, real, s);
+                let got = exec_stmt(e, tn, real, s);
                 if !hard.is_empty() {
                     match got {
                         Got::Conflict(_) => {
@@ -660,7 +704,7 @@ fn run_case(case: &Case, level: u8, selftest: bool) -> CaseOut {
                 m.end(k, commit, selftest);
             }
         }
-        match raw(&e) {
+        match raw(e, tn) {
             Err(x) => fail!("c09:table:unreadable".to_string(), format!("after [{}]: {x}", hist(i))),
             Ok(t) if t != m.rows => {
                 let sig = match after {
@@ -681,7 +725,7 @@ fn run_case(case: &Case, level: u8, selftest: bool) -> CaseOut {
     out.final_state = format!("{:?}", m.rows);
     // locks must be gone, nothing may be active
     let tm = e.tx_manager();
-    let left: Vec<u64> = (1..m.next_id).filter(|id| tm.is_row_locked(T, *id)).collect();
+    let left: Vec<u64> = (1..m.next_id).filter(|id| tm.is_row_locked(tn, *id)).collect();
     if tm.active_lock_count() != 0 || !left.is_empty() {
         fail!("c09:lock:left-behind-after-end".to_string(), format!("after [{all}]: every transaction has ended but active_lock_count() = {} and rows {left:?} are still locked", tm.active_lock_count()));
     }
@@ -690,7 +734,7 @@ fn run_case(case: &Case, level: u8, selftest: bool) -> CaseOut {
     }
     // indexed reads
     let phase = if any_rollback { "after-rollback" } else { "after-commit" };
-    if let Some(f) = battery(&e, &m.rows, m.next_id, case.cfg, level, &mut out.evals) {
+    if let Some(f) = battery(e, tn, &m.rows, m.next_id, case.cfg, level, &mut out.evals) {
         fail!(format!("c09:query-{phase}:{}", f.sig), format!("after [{all}]: {}", f.msg));
     }
     // finished transactions are refused by every tx_* call and change nothing
@@ -700,10 +744,10 @@ fn run_case(case: &Case, level: u8, selftest: bool) -> CaseOut {
         }
         let id = t.real_id;
         let calls: Vec<(&str, bool)> = vec![
-            ("tx_insert", e.tx_insert(id, T, vals(5, 5)).is_err()),
-            ("tx_update", e.tx_update(id, T, Condition::True, Set::H(5).map()).is_err()),
-            ("tx_delete", e.tx_delete(id, T, Condition::True).is_err()),
-            ("tx_select", e.tx_select(id, T, Condition::True).is_err()),
+            ("tx_insert", e.tx_insert(id, tn, vals(5, 5)).is_err()),
+            ("tx_update", e.tx_update(id, tn, Condition::True, Set::H(5).map()).is_err()),
+            ("tx_delete", e.tx_delete(id, tn, Condition::True).is_err()),
+            ("tx_select", e.tx_select(id, tn, Condition::True).is_err()),
             ("commit", e.commit(id).is_err()),
             ("rollback", e.rollback(id).is_err()),
         ];
@@ -715,24 +759,25 @@ fn run_case(case: &Case, level: u8, selftest: bool) -> CaseOut {
             fail!("c09:finished-tx:reported-active".to_string(), format!("after [{all}]: is_transaction_active(tx{k}) is true"));
         }
     }
-    match raw(&e) {
+    match raw(e, tn) {
         Ok(t) if t == m.rows => {}
         Ok(t) => fail!("c09:finished-tx:call-changed-table".to_string(), format!("after [{all}] and the refused calls on finished transactions: {}", diff(&t, &m.rows))),
         Err(x) => fail!("c09:table:unreadable".to_string(), x),
     }
     // a new transaction can write every row (no lock survived), and its rollback restores the table
     let p = e.begin_transaction();
-    let r = classify(e.tx_update(p, T, Condition::True, Set::HO(5, 5).map()).map(|n| n as u64));
+    let r = classify(e.tx_update(p, tn, Condition::True, Set::HO(5, 5).map()).map(|n| n as u64));
     out.evals += 1;
     if r != Got::Ok(m.rows.len() as u64) {
         fail!("c09:lock:left-behind-after-end".to_string(), format!("after [{all}]: a new transaction updating every row got {r:?}, expected Ok({})", m.rows.len()));
     }
     let _ = e.rollback(p);
-    match raw(&e) {
+    match raw(e, tn) {
         Ok(t) if t == m.rows => {}
         Ok(t) => fail!("c09:rollback:table-differs".to_string(), format!("after [{all}] then a new transaction updating every row and rolling back: {}", diff(&t, &m.rows))),
         Err(x) => fail!("c09:table:unreadable".to_string(), x),
     }
+    out.clean = true;
     out
 }
 
@@ -807,7 +852,7 @@ fn plan(thorough: bool, selftest: bool) -> Plan {
     if selftest {
         Plan { s1: vec![(0, 2, 2)], s2_pairs: vec![(1, 1)], s2_triples: false, level: 0, bound: 1 }
     } else if thorough {
-        Plan { s1: vec![(0, 2, 4), (1, 3, 3)], s2_pairs: vec![(1, 1), (1, 2), (2, 1), (2, 2)], s2_triples: true, level: 1, bound: 2 }
+        Plan { s1: vec![(0, 2, 4), (1, 3, 3)], s2_pairs: vec![(1, 1), (1, 2), (2, 1), (2, 2)], s2_triples: true, level: 1, bound: 3 }
     } else {
         Plan { s1: vec![(0, 2, 3)], s2_pairs: vec![(1, 1), (1, 2), (2, 1)], s2_triples: false, level: 0, bound: 2 }
     }
@@ -955,8 +1000,8 @@ struct Rec {
 }
 fn exec_top(e: &RelationalEngine, tx: &[u64], op: &TOp) -> Got {
     match op {
-        TOp::S(k, s) => exec_stmt(e, Some(tx[*k as usize]), s),
-        TOp::Auto(s) => exec_stmt(e, None, s),
+        TOp::S(k, s) => exec_stmt(e, T, Some(tx[*k as usize]), s),
+        TOp::Auto(s) => exec_stmt(e, T, None, s),
         TOp::Commit(k) => classify(e.commit(tx[*k as usize]).map(|()| 0u64)),
         TOp::Rollback(k) => classify(e.rollback(tx[*k as usize]).map(|()| 0u64)),
     }
@@ -1035,7 +1080,7 @@ fn judge(p: &Program, e: &RelationalEngine, tx: &[u64], mut recs: Vec<Rec>, self
         recs.push(Rec { phase: 2, op: op.clone(), call: u64::MAX, ret: u64::MAX, got });
     }
     let res_text = results(&recs);
-    let table = match raw(e) {
+    let table = match raw(e, T) {
         Ok(t) => t,
         Err(x) => return ("<unreadable>".into(), Some(format!("c09:table:unreadable|{x}"))),
     };
@@ -1128,7 +1173,7 @@ fn judge(p: &Program, e: &RelationalEngine, tx: &[u64], mut recs: Vec<Rec>, self
         return (outcome, Some(format!("c09:lock:left-behind-after-end|all transactions ended but active_lock_count() = {}, active_transaction_count() = {}; results: {res_text}", tm.active_lock_count(), e.active_transaction_count())));
     }
     let mut evals = 0;
-    if let Some(f) = battery(e, &table, u64::from(p.rows0) + 2, p.cfg, 0, &mut evals) {
+    if let Some(f) = battery(e, T, &table, u64::from(p.rows0) + 2, p.cfg, 0, &mut evals) {
         return (outcome, Some(format!("c09:conc:query:{}|{}; results: {res_text}", f.sig, f.msg)));
     }
     for (k, id) in tx.iter().enumerate() {
@@ -1250,11 +1295,12 @@ fn worker(i: usize, n: usize, thorough: bool, selftest: bool, only: Option<&str>
     vsched::set_thread_init(|t| env::set_thread_seed(t as u64 + 1));
     let pl = plan(thorough, selftest);
     let mut st = WStats::default();
+    let mut pool = Pool { e: None, used: 0 };
     for_each_case(&pl, only, &mut |idx, case| {
         if idx % n as u64 != i as u64 {
             return;
         }
-        let out = run_case(&case, pl.level, selftest);
+        let out = run_case(&mut pool, &case, pl.level, selftest);
         *st.cases.entry(case.part.clone()).or_default() += 1;
         st.steps += out.steps;
         st.evals += out.evals;
@@ -1313,7 +1359,7 @@ fn replay(path: &str, rep: &mut Report, selftest: bool) {
         rep.add("traces_validated_against_impl", 1);
     } else {
         let case: Case = serde_json::from_value(r["case"].clone()).expect("case");
-        let out = run_case(&case, 1, selftest);
+        let out = run_case(&mut Pool { e: None, used: 0 }, &case, 1, selftest);
         if let Some((sig, msg)) = out.viol {
             rep.violation(sig, msg, r.clone());
         }
@@ -1328,12 +1374,12 @@ fn repro() {
     println!("-- R1: a row inserted by an open transaction is not locked");
     let e = setup(0, 2);
     let (a, b) = (e.begin_transaction(), e.begin_transaction());
-    println!("table before: {:?}", raw(&e).unwrap());
+    println!("table before: {:?}", raw(&e, T).unwrap());
     println!("tx_a.tx_insert(h=1,o=3) -> {:?}", e.tx_insert(a, T, vals(1, 3)));
     println!("tx_b.tx_delete(o>=2)    -> {:?}   (row 3 belongs to the open tx_a: LockConflict expected)", e.tx_delete(b, T, Cx::OGe(2).cond()));
     println!("rollback(tx_a) -> {:?}", e.rollback(a));
     println!("rollback(tx_b) -> {:?}", e.rollback(b));
-    println!("table after both rollbacks: {:?}   (row 3 never existed outside rolled-back transactions)", raw(&e).unwrap());
+    println!("table after both rollbacks: {:?}   (row 3 never existed outside rolled-back transactions)", raw(&e, T).unwrap());
     println!("select(h = 1) -> ids {:?}", e.select(T, Cx::H(1).cond()).unwrap().iter().map(|r| r.id).collect::<Vec<_>>());
     println!("-- R2: committed update of such a row disappears");
     let e = setup(0, 2);
@@ -1342,8 +1388,35 @@ fn repro() {
     println!("tx_b.tx_update(_id=3 SET o:=4) -> {:?}", e.tx_update(b, T, Cx::Id(3).cond(), Set::O(4).map()));
     println!("commit(tx_b) -> {:?}", e.commit(b));
     println!("rollback(tx_a) -> {:?}", e.rollback(a));
-    println!("table: {:?}", raw(&e).unwrap());
+    println!("table: {:?}", raw(&e, T).unwrap());
     println!("-- R3: tx_update reads the row before it locks it (needs the scheduler): run the replay files of c09:conc:final-table:*");
+}
+
+fn probe_cost() {
+    let t0 = env::real_now_s();
+    for _ in 0..2000 {
+        let e = setup(0, 2);
+        std::hint::black_box(&e);
+    }
+    let t1 = env::real_now_s();
+    let e = setup(0, 2);
+    let m = init_table(2);
+    let mut n = 0;
+    for _ in 0..2000 {
+        let _ = battery(&e, T, &m, 4, 0, 0, &mut n);
+    }
+    let t2 = env::real_now_s();
+    for _ in 0..2000 {
+        let _ = battery(&e, T, &m, 4, 0, 1, &mut n);
+    }
+    let t3 = env::real_now_s();
+    let mut pool = Pool { e: None, used: 0 };
+    let c = Case { part: "S1".into(), cfg: 0, rows0: 2, ntx: 1, events: vec![Ev::Tx(0, Stmt::Upd(Cx::Id(1), Set::H(3))), Ev::Tx(0, Stmt::Ins(1, 3)), Ev::Tx(0, Stmt::Del(Cx::OGe(2))), Ev::Rollback(0)] };
+    for _ in 0..2000 {
+        let _ = run_case(&mut pool, &c, 0, false);
+    }
+    let t4 = env::real_now_s();
+    println!("setup {:.3} ms, battery L0 {:.3} ms, battery L1 {:.3} ms, case(L0) {:.3} ms", (t1 - t0) / 2.0, (t2 - t1) / 2.0, (t3 - t2) / 2.0, (t4 - t3) / 2.0);
 }
 
 fn main() {
@@ -1352,6 +1425,10 @@ fn main() {
     let args = nvc::Args::parse();
     let selftest = std::env::args().any(|a| a == "--selftest");
     let only = args.flag("only");
+    if std::env::args().any(|a| a == "--probe-cost") {
+        probe_cost();
+        return;
+    }
     if std::env::args().any(|a| a == "--repro") {
         repro();
         return;
@@ -1384,7 +1461,7 @@ fn main() {
     for &(cfg, rows0, _) in &pl.s1 {
         let e = setup(cfg, rows0);
         let mut n = 0;
-        if let Some(f) = battery(&e, &init_table(rows0), u64::from(rows0) + 1, cfg, pl.level, &mut n) {
+        if let Some(f) = battery(&e, T, &init_table(rows0), u64::from(rows0) + 1, cfg, pl.level, &mut n) {
             rep.machinery(format!("query battery disagrees with the reference on the initial table (config {cfg}): {}", f.msg));
         }
     }
